@@ -41,12 +41,12 @@ ANCHORS = [
 _OUT = ['ok', 'listed', 'unlisted', 'exc-listed', 'exc-sub', 'exc-unlisted', 'exc-chained']
 FLOORS = {'*': {**{f'outcome:{o}:{p}': 10 for o in _OUT for p in ('first', 'middle', 'last')
                    if not (p == 'middle' and o in ('ok', 'unlisted', 'exc-unlisted', 'exc-chained'))},
-                'family:periodic': 100, 'family:exponential': 100, 'family:fibonacci': 100, 'exhausted-strategy': 50,
+                'family:periodic': 100, 'family:exponential': 100, 'family:fibonacci': 100, 'family:custom-iterator': 100, 'exhausted-strategy': 50,
                 'kind:notification': 30, 'kind:batch': 100, 'kind:single': 100, 'client:sync': 300, 'client:async': 300,
                 'source:client': 100, 'source:request': 100, 'source:request-none': 30, 'source:none': 30,
                 'cap-reached': 20, 'jitter:nonzero': 100, 'jitter:fresh-value-per-draw': 100,
                 'jitter:fresh:>=2-pauses-in-one-request': 20, 'entry:send': 300, 'entry:call': 100, 'entry:dunder-call': 100,
-                'entry:proxy': 100, 'entry:notify': 20, 'back-below-the-cap': 20, 'per-request-strategy-lists-nothing': 100, 'codes:reserved-range': 100, 'session:followup-requests': 100, 'sleeps-observed': 300}}
+                'entry:proxy': 100, 'entry:notify': 20, 'back-below-the-cap': 20, 'per-request-strategy-lists-nothing': 100, 'codes:reserved-range': 100, 'backend:requests': 20, 'backend:httpx': 20, 'session:followup-requests': 100, 'sleeps-observed': 300}}
 
 CODES = {'none': None, 'empty': set(), 'one': {2001}, 'several': {2001, 2002}, 'reserved': {-32050, -32099}}
 # the code the scripted server answers with for a 'listed' / 'unlisted' outcome; under 'reserved' both lie in the range the
@@ -86,7 +86,26 @@ def setup(ctx):
 DRAWS = []
 
 
+class IterBackoff(retry_mod.Backoff):
+    """a user-defined backoff whose __call__ hands out a plain iterator (Iterator[float] is all the base class promises)"""
+
+    def __init__(self, schedule, how):
+        object.__setattr__(self, 'attempts', len(schedule))
+        object.__setattr__(self, 'jitter', lambda: 0.0)
+        object.__setattr__(self, 'schedule', list(schedule))
+        object.__setattr__(self, 'how', how)
+
+    def __call__(self):
+        if self.how == 'iter':
+            return iter(self.schedule)
+        if self.how == 'map':
+            return map(float, self.schedule)
+        return itertools.islice(itertools.cycle(self.schedule or [0.0]), len(self.schedule))
+
+
 def make_backoff(spec):
+    if spec['family'] == 'custom-iterator':
+        return IterBackoff(spec['schedule'], spec['how'])
     j = spec.get('jitter', 0.0)
     jitter = (lambda: j)
     if j == 'fresh':
@@ -360,6 +379,8 @@ def backoff_grid(n):
     out.append({'family': 'exponential', 'attempts': n, 'base': 8.0, 'factor': 0.5, 'max_value': 3.0, 'jitter': 'fresh'})
     out.append({'family': 'exponential', 'attempts': n, 'base': 4.0, 'factor': 2.0, 'max_value': 6.0, 'jitter': -3.0})
     out.append({'family': 'exponential', 'attempts': n, 'base': 1.0, 'factor': 0.25, 'max_value': None, 'jitter': 0.0})
+    for how in ('iter', 'map', 'islice'):
+        out.append({'family': 'custom-iterator', 'attempts': n, 'schedule': [0.5, 0.25, 2.0, 0.125, 1.0][:n], 'how': how})
     return out
 
 
@@ -400,6 +421,120 @@ def gen(ctx):
                 yield 'session', dict(spec=spec, codes=codes, excs=excs, is_async=bool((k // 5) % 2), requests=reqs)
 
 
+class DroppingServer:
+    """a loop-back HTTP server that reads each request completely and then closes the first `drops` connections without an
+    answer (a peer going away after the request was written); later connections get a proper JSON-RPC reply"""
+
+    def __init__(self, drops):
+        import socket
+        import threading
+        self.drops = drops
+        self.connections = 0
+        self.sock = socket.socket(socket.AF_INET, socket.SOCK_STREAM)
+        self.sock.setsockopt(socket.SOL_SOCKET, socket.SO_REUSEADDR, 1)
+        self.sock.bind(('127.0.0.1', 0))
+        self.sock.listen(32)
+        self.port = self.sock.getsockname()[1]
+        self.thread = threading.Thread(target=self._serve, daemon=True)
+        self.thread.start()
+
+    def _serve(self):
+        while True:
+            try:
+                c, _ = self.sock.accept()
+            except OSError:
+                return
+            try:
+                c.settimeout(5)
+                buf = b''
+                while b'\r\n\r\n' not in buf:
+                    chunk = c.recv(65536)
+                    if not chunk:
+                        break
+                    buf += chunk
+                head, _, body = buf.partition(b'\r\n\r\n')
+                length = 0
+                for line in head.split(b'\r\n'):
+                    if line.lower().startswith(b'content-length:'):
+                        length = int(line.split(b':', 1)[1])
+                while len(body) < length:
+                    chunk = c.recv(65536)
+                    if not chunk:
+                        break
+                    body += chunk
+                self.connections += 1
+                if self.connections > self.drops:
+                    try:
+                        rid = json.loads(body.decode() or 'null')['id']
+                    except Exception:
+                        rid = None
+                    payload = json.dumps({'jsonrpc': '2.0', 'id': rid, 'result': f'conn{self.connections}'}).encode()
+                    c.sendall(b'HTTP/1.1 200 OK\r\nContent-Type: application/json\r\nConnection: close\r\nContent-Length: '
+                              + str(len(payload)).encode() + b'\r\n\r\n' + payload)
+            except Exception:
+                pass
+            finally:
+                try:
+                    c.close()
+                except Exception:
+                    pass
+
+    def close(self):
+        try:
+            self.sock.close()
+        except Exception:
+            pass
+
+
+def run_backend(ctx, backend, drops, attempts, listed):
+    """the library's own HTTP backends against a peer that drops connections: every send is one connection, and how many
+    there are is the retry strategy's business alone"""
+    import importlib
+    try:
+        if backend == 'requests':
+            import requests
+            mod = importlib.import_module('pjrpc.client.backend.requests')
+            exc_cls = requests.exceptions.ConnectionError
+        else:
+            import httpx
+            mod = importlib.import_module('pjrpc.client.backend.httpx')
+            exc_cls = httpx.TransportError
+    except Exception as e:
+        ctx.skip(f'backend-not-importable:{type(e).__name__}')
+        return
+    srv = DroppingServer(drops)
+    try:
+        strategy = None
+        if attempts is not None:
+            strategy = retry_mod.RetryStrategy(backoff=retry_mod.PeriodicBackoff(attempts=attempts, interval=0.25),
+                                               exceptions={exc_cls} if listed else {KeyError}, codes={2001})
+        client = mod.Client(f'http://127.0.0.1:{srv.port}/rpc', retry_strategy=strategy)
+        del EVENTS[:]
+        st, out = clientside.outcome_of(lambda: client.call('m', 1), False)
+        sleeps = [e[1] for e in EVENTS if e[0] == 'sleep']
+        allowed = (attempts if (attempts is not None and listed) else 0) + 1
+        want_sends = min(drops, allowed - 1) + 1 if drops >= 1 else 1
+        want_ok = drops < allowed
+        ctx.hit('backend:' + backend)
+        cls = ('backend', backend, drops, attempts, listed)
+        wit = dict(backend=backend, connections_dropped_by_the_peer=drops, retry_attempts=attempts, connection_errors_listed=listed,
+                   connections_seen_by_the_peer=srv.connections, expected_connections=want_sends, pauses=sleeps, outcome=[st, out])
+        if srv.connections > allowed:
+            ctx.violation('more-sends-than-attempts-plus-one:library-backend', 'backend', cls, **wit)
+        elif srv.connections != want_sends:
+            ctx.violation(f"wrong-number-of-sends:{'too-many' if srv.connections > want_sends else 'too-few'}:library-backend", 'backend', cls, **wit)
+        elif len(sleeps) != want_sends - 1:
+            ctx.violation('wrong-number-of-pauses:library-backend', 'backend', cls, **wit)
+        elif want_ok and (st != 'ret' or out != f'conn{want_sends}'):
+            ctx.violation('last-response-not-returned:library-backend', 'backend', cls, **wit)
+        elif not want_ok and (st != 'exc' or not isinstance(out, exc_cls)):
+            ctx.violation('last-exception-not-reraised-unchanged:library-backend', 'backend', cls, **wit)
+        else:
+            ctx.ok(f'backend:{backend}', cls, sample=wit)
+    finally:
+        srv.close()
+
+
 def crafted(ctx):
     """a per-request strategy REPLACES the client-wide one, also when it lists nothing at all"""
     grid = backoff_grid(2)
@@ -416,7 +551,11 @@ _gen_sampled = gen
 
 def gen(ctx):
     yield from crafted(ctx)
+    for backend in ('requests', 'httpx'):
+        for drops in (0, 1, 2, 3, 5):
+            for attempts, listed in ((None, True), (0, True), (1, True), (2, True), (3, True), (2, False)):
+                yield 'backend', dict(backend=backend, drops=drops, attempts=attempts, listed=listed)
     yield from _gen_sampled(ctx)
 
 
-KINDS = {'session': run_session}
+KINDS = {'session': run_session, 'backend': run_backend}
